@@ -87,7 +87,23 @@ func (b *busEvents) handlerInvoke(fc *FrameCtx, in ssa.Instruction) (regCanon st
 // filterCall: in is a call of the registration's filter predicate.
 func (b *busEvents) filterCall(fc *FrameCtx, in ssa.Instruction) (regCanon string, call *ssa.Call, ok bool) {
 	call, isCall := in.(*ssa.Call)
-	if !isCall || !isDynamicCall(call.Common()) {
+	if !isCall {
+		return "", nil, false
+	}
+	// evaluation through a helper of the package that is handed the registration's filter
+	// and answers with a bool (the reflective fallback for a filter whose parameter type is
+	// not the static type of the publish)
+	if sc := call.Common().StaticCallee(); sc != nil && PkgOf(sc) == PkgBus && !isDynamicCall(call.Common()) {
+		if rs := sc.Signature.Results(); rs.Len() == 1 && isBasicKind(rs.At(0).Type(), types.Bool) {
+			for _, a := range call.Common().Args {
+				if fld, rc, ok := b.regFieldLoad(fc, a); ok && fld == b.R.RegFilter {
+					return rc, call, true
+				}
+			}
+		}
+		return "", nil, false
+	}
+	if !isDynamicCall(call.Common()) {
 		return "", nil, false
 	}
 	x, ok := throughAssert(call.Common().Value)
